@@ -16,8 +16,12 @@ pub enum Hint {
     LyingLow,
     LyingHigh,
     Changing,
+    /// truthful, upper bound exactly usize::MAX (what `take_while` / `scan` over an unbounded source report)
+    UpperMax,
+    /// truthful, exact lower bound and upper bound usize::MAX
+    LowerUpperMax,
 }
-pub const HINTS: &[Hint] = &[Hint::Exact, Hint::Absent, Hint::LowerOnly, Hint::UpperOnly, Hint::Loose, Hint::LyingLow, Hint::LyingHigh, Hint::Changing];
+pub const HINTS: &[Hint] = &[Hint::Exact, Hint::Absent, Hint::LowerOnly, Hint::UpperOnly, Hint::Loose, Hint::LyingLow, Hint::LyingHigh, Hint::Changing, Hint::UpperMax, Hint::LowerUpperMax];
 
 impl Hint {
     fn truthful(self) -> bool {
@@ -25,7 +29,8 @@ impl Hint {
     }
 }
 
-pub struct Src<E: Elem> {
+/// `MARK`: the source also carries the `FusedIterator` marker (std's `Fuse` adaptor is then a pass-through)
+pub struct Src<E: Elem, const MARK: bool> {
     total: usize,
     yielded: usize,
     hint: Hint,
@@ -38,13 +43,15 @@ pub struct Src<E: Elem> {
     _p: core::marker::PhantomData<E>,
 }
 
-impl<E: Elem> Src<E> {
+impl<E: Elem, const MARK: bool> Src<E, MARK> {
     fn new(total: usize, hint: Hint, fused: bool) -> Self {
         Src { total, yielded: 0, hint, fused, next_calls: 0, hint_calls: RefCell::new(0), returned_none: false, polls_after_none: 0, produced: vec![], _p: core::marker::PhantomData }
     }
 }
 
-impl<E: Elem> Iterator for Src<E> {
+impl<E: Elem> core::iter::FusedIterator for Src<E, true> {}
+
+impl<E: Elem, const MARK: bool> Iterator for Src<E, MARK> {
     type Item = E;
     fn next(&mut self) -> Option<E> {
         self.next_calls += 1;
@@ -84,6 +91,8 @@ impl<E: Elem> Iterator for Src<E> {
             Hint::Loose => (rem / 2, Some(rem * 2 + 1)),
             Hint::LyingLow => (0, Some(rem.saturating_sub(1))),
             Hint::LyingHigh => (rem + 1, None),
+            Hint::UpperMax => (0, Some(usize::MAX)),
+            Hint::LowerUpperMax => (rem, Some(usize::MAX)),
             Hint::Changing => {
                 if calls % 2 == 1 {
                     (0, None)
@@ -96,9 +105,9 @@ impl<E: Elem> Iterator for Src<E> {
 }
 
 /// entry: 0 try_from_iter, 1 from_iter, 2 try_boxed_from_iter, 3 boxed from_iter
-fn collect_case<N: ArrayLength, E: Elem>(entry: u8, c: usize, hint: Hint, fused: bool, bomb: Option<u64>) -> Result<(CaseInfo, usize), String> {
+fn collect_case<N: ArrayLength, E: Elem, const MARK: bool>(entry: u8, c: usize, hint: Hint, fused: bool, bomb: Option<u64>) -> Result<(CaseInfo, usize), String> {
     let n = N::USIZE;
-    let mut src = Src::<E>::new(c, hint, fused);
+    let mut src = Src::<E, MARK>::new(c, hint, fused);
     // what the source announces before anything is pulled: "a size_hint that already rules N out" must be a LengthError
     let (lo0, hi0) = {
         let h = src.size_hint();
@@ -193,20 +202,25 @@ pub fn run(ctx: &mut Ctx) {
                     let cs: Vec<usize> = if N::USIZE <= 100 { (0..=N::USIZE + 3).collect() } else { vec![0, 1, N::USIZE / 2, N::USIZE - 1, N::USIZE, N::USIZE + 1, N::USIZE + 3] };
                     for c in cs {
                         for &hint in HINTS {
-                            for fused in [true, false] {
-                                let d = format!("C07;{en};N={};c={c};hint={hint:?};fused={fused};E={}", N::USIZE, <$E as Elem>::NAME);
+                            for (fused, mark) in [(true, false), (false, false), (true, true)] {
+                                let d = format!("C07;{en};N={};c={c};hint={hint:?};fused={};E={}", N::USIZE, if mark { "marked" } else if fused { "true" } else { "false" }, <$E as Elem>::NAME);
+                                macro_rules! cc {
+                                    ($k:expr) => {
+                                        if mark { collect_case::<N, $E, true>(entry, c, hint, fused, $k) } else { collect_case::<N, $E, false>(entry, c, hint, fused, $k) }
+                                    };
+                                }
                                 // fault-free run also tells how many next() calls there are to fail
                                 elems::reset_all();
-                                let calls = match catch(|| collect_case::<N, $E>(entry, c, hint, fused, None)) {
+                                let calls = match catch(|| cc!(None)) {
                                     Ok(Ok((_, calls))) => calls,
                                     _ => 0,
                                 };
-                                ctx.case(&format!("{d};k=-"), || collect_case::<N, $E>(entry, c, hint, fused, None).map(|x| x.0));
+                                ctx.case(&format!("{d};k=-"), || cc!(None).map(|x| x.0));
                                 // panics at every call index: all hints for small N, the three hint families otherwise
                                 if N::USIZE <= 5 || matches!(hint, Hint::Exact | Hint::Absent | Hint::LyingHigh) {
                                     let ks: Vec<u64> = if calls <= 128 { (0..calls as u64).collect() } else { let c = calls as u64; let mut v = vec![0, 1, c / 2, c - 2, c - 1, 63, 64, 65, 127, 128, 129, 511, 512, 513]; v.retain(|&k| k < c); v.sort(); v.dedup(); v };
                                     for k in ks {
-                                        ctx.case(&format!("{d};k={k}"), || collect_case::<N, $E>(entry, c, hint, fused, Some(k)).map(|x| x.0));
+                                        ctx.case(&format!("{d};k={k}"), || cc!(Some(k)).map(|x| x.0));
                                     }
                                 }
                             }
